@@ -103,18 +103,18 @@ func expandWords(s string) string {
 	return b.String()
 }
 
-var recipeKeys = []string{"root", "profile", "atoms", "atomsfile", "addfiles", "compress", "nobdeps", "novdb", "emptydev"}
-var recipeBadKeys = []string{"Root", "include", "atom", "%d", "%s%n", "staticdev", "nobdep", "root=", "-root", "'root'", "ROOT", "atomfile"}
+var recipeKeys = []string{"root", "profile", "atoms", "atoms", "atoms", "atomsfile", "addfiles", "compress", "nobdeps", "novdb", "emptydev"}
+var recipeBadKeys = []string{"root%", "%", "Root", "include", "atom", "%d", "%s%n", "staticdev", "nobdep", "root=", "-root", "'root'", "ROOT", "atomfile"}
 
 func genRecipeValue(r *rng.R, key string) string {
-	if r.Chance(1, 9) {
+	if r.Chance(1, 14) {
 		return ""
 	}
 	switch key {
 	case "root":
-		return r.Pick([]string{"@A", "@B", "@A", "@C", "@N", "@A/", "@B/.", "."})
+		return r.Pick([]string{"@A", "@B", "@A", "@B", "@A", "@C", "@N", "@A/", "@B/.", "."})
 	case "profile":
-		return r.Pick([]string{"@P1", "@P2", "@A/etc/portage/make.profile", "@N", "@P1/"})
+		return r.Pick([]string{"@P1", "@P2", "@P2", "@A/etc/portage/make.profile", "@B/etc/portage/make.profile", "@N", "@P1/"})
 	case "atoms":
 		n := 1 + r.Heavy(3)
 		as := make([]string, n)
@@ -123,7 +123,7 @@ func genRecipeValue(r *rng.R, key string) string {
 		}
 		return strings.Join(as, r.Pick([]string{" ", "  ", "\t"}))
 	case "atomsfile":
-		return r.Pick([]string{"@F1", "@F2", "@F1", "@N"})
+		return r.Pick([]string{"@F1", "@F2", "@F1", "@F2", "@F1", "@N"})
 	case "addfiles":
 		return r.Pick([]string{"@N", "/nonexistent/helperFiles", "@F1"})
 	case "compress":
@@ -138,12 +138,12 @@ func genRecipeValue(r *rng.R, key string) string {
 
 func genRecipe(r *rng.R) Input {
 	ensureRecipeEnv()
-	ri := &RecipeInput{CwdRoot: r.Chance(2, 3), HasItems: true}
+	ri := &RecipeInput{CwdRoot: r.Chance(5, 6), HasItems: true}
 	if r.Chance(1, 4) {
-		ri.Root = r.Pick([]string{"@A", "@B", "@N"})
+		ri.Root = r.Pick([]string{"@A", "@B", "@A", "@B", "@N"})
 	}
 	if r.Chance(1, 6) {
-		ri.Profile = r.Pick([]string{"@P1", "@P2", "@N"})
+		ri.Profile = r.Pick([]string{"@P1", "@P2", "@P2", "@N"})
 	}
 	if r.Chance(1, 5) {
 		ri.Atoms = r.Pick(atomPool) + " " + r.Pick(atomPool)
@@ -161,7 +161,13 @@ func genRecipe(r *rng.R) Input {
 			continue
 		}
 		key := r.Pick(recipeKeys)
-		if r.Chance(1, 10) {
+		if i == 0 && ri.Root != "" && r.Chance(1, 2) { // switch against recipe
+			key = "root"
+		}
+		if i == 0 && ri.Root == "" && ri.Profile != "" && r.Chance(1, 2) {
+			key = "profile"
+		}
+		if r.Chance(1, 16) {
 			key = r.Pick(recipeBadKeys)
 		}
 		val := genRecipeValue(r, key)
